@@ -344,7 +344,7 @@ var mimes = []string{"text/html", "text/plain", "application/json", "image/png",
 var tokens = []string{"utf-8", "gzip", "br", "en", "de", "iso-8859-1", "zstd", "fr", "es", "it", "pt", "nl", "sv", "da", "fi", "pl", "cs", "hu", "ja", "ko",
 	// look-alikes: sub-tags of a listed token, and tokens that only start with the letters of another one
 	"fr-CH", "en-US", "fil", "iso-8859-15", "deflate", "es-419", "zh", "zh-Hant"}
-var qPool = []string{"0", "0.0", "0.000", "0.001", "0.1", "0.5", "0.50", "0.9", "0.999", "1", "1.0", "1.000"}
+var qPool = []string{"0", "0.0", "0.000", "0.001", "0.1", "0.5", "0.50", "0.9", "0.999", "1", "1.0", "1.000", "0.2", "0.3", "0.3", "0.30", "0.4", "0.6", "0.6", "0.600", "0.7", "0.7", "0.70", "0.8", "0.07", "0.33", "0.67", "0.123"}
 var pnames = []string{"charset", "level", "v", "title"}
 var pvals = []string{"utf-8", "1", "2", `"a b"`, `"1"`, "UTF-8", `"x,y"`, `"x\"y"`, `"q\\"`, `"x\,"`, `"\,\\\""`, `"\;q=0"`}
 
@@ -400,6 +400,9 @@ func genStep(t *rapid.T) Step {
 		}
 		if rapid.IntRange(0, 2).Draw(t, "hasq") != 0 {
 			r.Q = rapid.SampledFrom(qPool).Draw(t, "q")
+			if rapid.IntRange(0, 3).Draw(t, "qgen") == 0 {
+				r.Q = rapid.StringMatching(`0\.[0-9]{1,3}`).Draw(t, "qdigits") // any qvalue of the grammar; few digits, so ties are common
+			}
 		}
 		r.SemiWS = rapid.SampledFrom([]string{";", ";", "; ", " ;", " ; ", ";\t", "\t;", " \t; \t", ";;", "; ;"}).Draw(t, "semi") // OWS = *( SP / HTAB ); ";;" = an empty parameter
 		r.UpperQ = rapid.IntRange(0, 7).Draw(t, "upperq") == 0
